@@ -46,7 +46,7 @@ func init() {
 		MinEvals:        floor(200000, 3000000),
 		MinDistinct:     floor(8000, 150000),
 		RequiredCells: func(string) []string {
-			return []string{"mut/bitflip", "mut/delete", "mut/insert", "mut/substitute", "mut/field-rewrite", "mut/sig-other-key", "mut/sig-transplant", "mut/sig-truncated", "mut/sig-zeroed", "mut/sig-junk", "mut/sig-junk-on-rewritten-payload", "mut/sig-extended", "mut/sig-by-did-prefix-colliding-key", "mut/header-swap", "mut/header-swap-resigned", "mut/own-header-variant-resigned", "mut/signed-over-dagjson-text", "mut/genuine-envelope-spliced-into-nonce", "mut/extra-key-resigned", "mut/extra-key-after-tag-resigned", "mut/extra-key-before-tag-resigned", "mut/second-payload-resigned", "mut/iss-key-bytes-under-other-multicodec-resigned", "mut/other-tag-resigned", "mut/json-field-rewrite", "mut/json-char-edit",
+			return []string{"mut/bitflip", "mut/delete", "mut/insert", "mut/substitute", "mut/field-rewrite", "mut/sig-other-key", "mut/sig-transplant", "mut/sig-truncated", "mut/sig-zeroed", "mut/sig-junk", "mut/sig-junk-on-rewritten-payload", "mut/sig-extended", "mut/sig-by-did-prefix-colliding-key", "mut/header-swap", "mut/header-swap-resigned", "mut/own-header-variant-resigned", "mut/signed-over-dagjson-text", "mut/genuine-envelope-spliced-into-nonce", "mut/extra-key-resigned", "mut/extra-key-after-tag-resigned", "mut/extra-key-before-tag-resigned", "mut/second-payload-resigned", "mut/iss-key-bytes-under-other-multicodec-resigned", "mut/optional-principal-empty-resigned", "mut/other-tag-resigned", "mut/json-field-rewrite", "mut/json-char-edit",
 				"concurrent", "concurrent/genuine", "concurrent/forged", "concurrent/large", "outcome/rejected", "outcome/accepted-same-content", "base/dlg", "base/inv", "base/ed25519", "base/non-ed25519"}
 		},
 	})
@@ -761,6 +761,25 @@ func runC06(w *mon.W) {
 						}
 						if enc, err := ref.EncodeDagJson(re); err == nil {
 							c06Offer(w, b, "iss-key-bytes-under-other-multicodec-resigned", enc, "dagjson", decs)
+						}
+					}
+				}
+			}
+		}
+		// 6c. optional principals present but EMPTY,
+		// re-signed by the issuer: whatever is decoded must show what was signed
+		if mine() {
+			for _, f := range []string{"sub", "aud"} {
+				for _, val := range []ref.V{ref.Str(""), ref.Str(" ")} {
+					val := val
+					p := withField(b.info.Payload, f, &val)
+					if re, err := ref.SignEnvelope(def.iss.Priv, nil, b.info.Tag, p); err == nil {
+						kind := "optional-principal-empty-resigned"
+						if enc, err := ref.EncodeDagCbor(re); err == nil {
+							c06Offer(w, b, kind, enc, "dagcbor", decs)
+						}
+						if enc, err := ref.EncodeDagJson(re); err == nil {
+							c06Offer(w, b, kind, enc, "dagjson", decs)
 						}
 					}
 				}
